@@ -737,7 +737,7 @@ func writeFieldsTable(table []fieldObs, path string) error {
 	if string(old) == sb.String() {
 		return nil // unchanged: keep the timestamp so that make does not rebuild
 	}
-	return os.WriteFile(path, []byte(sb.String()), 0o644)
+	return writeIfChanged(path, []byte(sb.String()))
 }
 
 func topField(path mpath) string {
